@@ -156,6 +156,8 @@ type World struct {
 	simPanicked      bool            // a scripted callback panic cut the current step short
 	simItems         []*simBase      // mutable items created so far
 	Template         *tabular.Cell   // a cell value prepared outside (shared BY VALUE between tables)
+	dumped           bool            // the step just executed printed the table with %#v
+	foreignFired     int             // invocations of callbacks that belong to another table
 	TemplateErrs     [][]error       // error lists prepared outside (the same slices are handed to several tables)
 	Other            *tabular.ATable // a second table some rows were also added to (C09 only)
 
@@ -237,6 +239,20 @@ func coreOf(t tabular.Table) *tabular.ATable {
 }
 
 func (w *World) probe(name string) { w.Probes[name]++ }
+
+// foreignCallback is registered on a table other than the simulated one; once
+// armed it has no reason to be invoked ever again.
+type foreignCallback struct {
+	w     *World
+	armed bool
+}
+
+func (f *foreignCallback) UpdateProperties(tabular.PropertyOwner) error {
+	if f.armed {
+		f.w.foreignFired++
+	}
+	return nil
+}
 
 // quietCallback does nothing; it only occupies a slot of a callback list.
 type quietCallback struct{}
@@ -547,6 +563,53 @@ func (w *World) Do(st *Step) bool {
 			w.Tab.RegisterPropertyCallback(p, tabular.CB_AT_RENDER, tabular.CB_ON_ITSELF, quietCallback{})
 		}
 		w.probe("template_cell_added_by_value")
+	case "foreignCopy":
+		// a by-value copy of a cell that LIVES IN ANOTHER TABLE (where it has been
+		// added and rendered, at the column index it will get here) is added to a
+		// row of this table: from then on it is a cell of this table and of the
+		// column it sits in; nothing registered on the other table concerns it
+		i := pick(len(w.handles), st.A)
+		if i < 0 {
+			return true
+		}
+		h := w.handles[len(w.handles)-1-i]
+		if h.real == nil {
+			return true
+		}
+		k := len(h.cells) + 1
+		other := tabular.New()
+		items := make([]interface{}, k)
+		for j := range items {
+			items[j] = "other table"
+		}
+		v, id := w.newItem(Item{K: "s", S: "from another table"})
+		items[k-1] = v
+		other.AddRowItems(items...)
+		fc := &foreignCallback{w: w}
+		other.RegisterPropertyCallback(other, tabular.CB_AT_ADD, tabular.CB_ON_CELL, fc)
+		other.RegisterPropertyCallback(other, tabular.CB_AT_RENDER_PRECELL, tabular.CB_ON_CELL, fc)
+		for n := 0; n <= k; n++ {
+			if c := other.Column(n); c != nil {
+				other.RegisterPropertyCallback(c, tabular.CB_AT_ADD, tabular.CB_ON_CELL, fc)
+				other.RegisterPropertyCallback(c, tabular.CB_AT_RENDER_PRECELL, tabular.CB_ON_CELL, fc)
+				other.RegisterPropertyCallback(c, tabular.CB_AT_RENDER_POSTCELL, tabular.CB_ON_CELL, fc)
+			}
+		}
+		other.InvokeRenderCallbacks() // the other table has been through a render pass
+		fc.armed = true               // ... and is not touched again
+		src, err := other.CellAt(tabular.CellLocation{Row: 1, Column: k})
+		if err != nil || src == nil {
+			return true
+		}
+		mc := &mCell{itemID: id, item: v}
+		w.itemCell[id] = mc
+		w.expectRowAdd(h, mc)
+		h.real.Add(*src)
+		h.cells = append(h.cells, mc)
+		if h.attached {
+			w.syncColumns()
+		}
+		w.probe("cell_copied_from_another_table")
 	case "addTemplateErrs":
 		// the caller hands the table a list of errors prepared elsewhere — the very
 		// same slice that other tables are handed too (it stays the caller's)
@@ -580,6 +643,12 @@ func (w *World) Do(st *Step) bool {
 		}
 		w.simItems[len(w.simItems)-1-i].text += "~changed"
 		w.probe("item_mutated_without_update")
+	case "dump":
+		// the caller prints the table with %#v (a debugging aid): neither a render
+		// pass nor a mutation — nothing the table reports may differ afterwards
+		_ = fmt.Sprintf("%#v", w.Core)
+		w.dumped = true
+		w.probe("table_printed_with_%#v")
 	case "scramble":
 		rr := w.Tab.AllRows()
 		switch pick(3, st.A) {
